@@ -7,7 +7,6 @@ use libp2p_autonat as autonat;
 use libp2p_core::multiaddr::{Multiaddr, Protocol};
 use libp2p_identity::PeerId;
 use libp2p_swarm::SwarmEvent;
-use simkit::runner::NO_FAULTS;
 use simkit::*;
 use std::collections::BTreeMap;
 use std::net::IpAddr;
@@ -21,11 +20,11 @@ pub fn checks() -> Vec<Check> {
         id: "C50",
         title: "AutoNAT servers dial back only the requester's observed IP",
         level: Level::Exploration,
-        rule: "A real autonat::Behaviour (v1; only_global_ips off because the simulated network is 10.0.0.0/24; throttle limits per peer 1..3, global 1..4, period 10..70 s; max_peer_addresses 1..8) serves 2..4 scripted clients that listen for the dial-back. Requests carry 1..5 addresses from a menu: honest, another client's IP, a public IP, several IP components, DNS names before/after the IP, relay (/p2p-circuit) paths, a foreign /p2p suffix, the requester's /p2p in the middle; the peer id field is the sender's or someone else's. Every address the server's transport is asked to dial (recorded in the simulated transport) must have all its ip4/ip6 components equal to the IP the server observed for the requester, contain no p2p-circuit and end with /p2p/<requester>; the addresses announced in InboundProbeEvent::Request obey the same IP/relay rule. Folding the probe events: never two probes in progress for one peer, per-peer and global numbers of accepted probes inside any throttle period within the limits. Non-trivial = at least one dial-back happened and one request was refused",
+        rule: "A real autonat::Behaviour (v1; only_global_ips off because the simulated network is 10.0.0.0/24; throttle limits per peer 1..3, global 1..4, period 10..70 s; max_peer_addresses 1..8) serves 2..4 scripted clients that listen for the dial-back. Requests carry 1..5 addresses from a menu: honest, another client's IP, a public IP, several IP components, DNS names before/after the IP, relay (/p2p-circuit) paths, a foreign /p2p suffix, the requester's /p2p in the middle; the peer id field is the sender's or someone else's; connections (the client's or a dial-back in progress) are reset at seeded moments (fault transport_reset) and clients re-dial. Every address the server's transport is asked to dial (recorded in the simulated transport) must have all its ip4/ip6 components equal to the IP the server observed for the requester, contain no p2p-circuit and end with /p2p/<requester>; the addresses announced in InboundProbeEvent::Request obey the same IP/relay rule. Folding the probe events: never two probes in progress for one peer, per-peer and global numbers of accepted probes inside any throttle period within the limits. Non-trivial = at least one dial-back happened and one request was refused",
         assumptions: &["security/muxing stubbed (E2 stack); the observed address is the simulated transport's send-back address of the client's connection"],
         real: &["autonat v1 Behaviour (server role) incl. its request-response behaviour, handler and codec", "Swarm dialing (DialOpts, address translation)"],
         stub: &["transport/security/muxer -> SimTransport/SimMuxer", "AutoNAT clients -> scripted frames", "clock -> virtual"],
-        scenarios: vec![Scenario::new("autonat-server", 300, 30_000, autonat_server).profiles(NO_FAULTS)],
+        scenarios: vec![Scenario::new("autonat-server", 300, 30_000, autonat_server)],
     }]
 }
 
@@ -114,6 +113,20 @@ fn autonat_server() -> SimResult {
         if step < steps {
             if choose(5) == 0 {
                 advance(Duration::from_secs([1u64, 5, 20, 60][choose(4)]));
+            } else if choose(8) == 0 {
+                // fault: a connection (client's or a dial-back) is reset; clients without a connection dial again
+                if fault("transport_reset", 600) {
+                    let n = net::conn_count();
+                    if n > 0 {
+                        net::reset_conn(choose(n));
+                    }
+                    settle(Duration::from_millis(5));
+                }
+                for c in &clients {
+                    if !c.node.connections_to(&speer) {
+                        c.node.dial_new(speer, saddr.clone());
+                    }
+                }
             } else {
                 let c = choose(nclients);
                 let me = &clients[c];
